@@ -332,7 +332,23 @@ func genLabel(r *rand.Rand) string {
 }
 
 func genInt(r *rand.Rand) string {
-	switch pick(r, 5, 3, 1, 1) {
+	switch pick(r, 5, 3, 1, 1, 1, 1) {
+	case 4:
+		// around the widths at which a binary floating-point detour stops being exact
+		return []string{"16777217", "-16777217", "9007199254740991", "9007199254740992", "9007199254740993", "-9007199254740993", "9999999999999999",
+			"1000000000000001", "18014398509481985", "4611686018427387905", "9223372036854775806", "999999999999999999", "1234567890123456789"}[r.Intn(13)]
+	case 5:
+		// every digit count up to 18 (all fit 64 bits)
+		n := 1 + r.Intn(18)
+		b := make([]byte, n)
+		b[0] = byte('1' + r.Intn(9))
+		for i := 1; i < n; i++ {
+			b[i] = byte('0' + r.Intn(10))
+		}
+		if r.Intn(4) == 0 {
+			return "-" + string(b)
+		}
+		return string(b)
 	case 0:
 		return strconv.Itoa(r.Intn(21) - 5)
 	case 1:
